@@ -73,6 +73,7 @@ type HandlerObs struct {
 	WaitedUntil time.Duration
 	DelayDone, CtxDone, CtxDoneInWait, WaitOver bool
 	StallInWait time.Duration
+	WaitFrom    time.Duration // when the handler's wait (delay vs context) began
 	ExitEv     int64
 	Entries    int // number of times a handler was entered for this tag
 	Node       string
@@ -110,6 +111,7 @@ type CallRec struct {
 	CorruptReq, CorruptRes bool // a byte of the request / response was altered in transit
 	Read2, Read3 int // response argument bytes handed to the caller (also when a read failed)
 	cancelFn  func()
+	Paused    time.Duration // time the CALLER spent busy in its own code between library calls (ReadPause, ChunkPause)
 }
 
 // completedNormally: the call ended with its response or with the error its
@@ -257,7 +259,19 @@ func hasPoison(b []byte) bool {
 
 // flushProbe counts explicit flushes issued by the write patterns (index: how many more follow
 // back to back); copied into the run's probes.
-var flushProbe [3]int
+var flushProbe [4]int
+
+// sloppyFlush: an application that, when a Flush fails, flushes once more and closes
+// the writer (a retry, a deferred Close) before giving up. The library has to answer
+// with errors; it must not touch a frame it no longer owns.
+func sloppyFlush(wr tchannel.ArgWriter, err error) error {
+	if app(2) == 1 {
+		flushProbe[3]++
+		wr.Flush()
+		wr.Close()
+	}
+	return err
+}
 
 func writeArgRaw(wr tchannel.ArgWriter, err error, data []byte, pat int) error {
 	if err != nil {
@@ -279,7 +293,7 @@ func writeArgRaw(wr tchannel.ArgWriter, err error, data []byte, pat int) error {
 			for k := app(8); k >= 5; k-- { // 5: one flush, 6: two, 7: three
 				flushProbe[k-5]++
 				if err := wr.Flush(); err != nil {
-					return err
+					return sloppyFlush(wr, err)
 				}
 				if k > 5 && app(3) == 2 {
 					if _, err := wr.Write(nil); err != nil {
@@ -320,7 +334,7 @@ func writeArgRaw(wr tchannel.ArgWriter, err error, data []byte, pat int) error {
 			rest = rest[n:]
 			if pat == 3 && app(3) == 2 {
 				if err := wr.Flush(); err != nil {
-					return err
+					return sloppyFlush(wr, err)
 				}
 			}
 			if err := flushes(); err != nil {
@@ -334,12 +348,13 @@ func writeArgRaw(wr tchannel.ArgWriter, err error, data []byte, pat int) error {
 // readArg reads one argument with the given pattern. want is the expected
 // length (used by the exact-length pattern only).
 func readArgRaw(rd tchannel.ArgReader, err error, pat int, want int) ([]byte, error) {
-	return readArgPaused(rd, err, pat, want, 0)
+	var unused time.Duration
+	return readArgPaused(rd, err, pat, want, 0, &unused)
 }
 
 // readArgPaused: with pause > 0 the consumer reads piecewise and is busy for
 // that long after every piece (it is then NOT parked inside the library).
-func readArgPaused(rd tchannel.ArgReader, err error, pat int, want int, pause time.Duration) ([]byte, error) {
+func readArgPaused(rd tchannel.ArgReader, err error, pat int, want int, pause time.Duration, paused *time.Duration) ([]byte, error) {
 	if err != nil {
 		return nil, err
 	}
@@ -357,6 +372,7 @@ func readArgPaused(rd tchannel.ArgReader, err error, pat int, want int, pause ti
 				return out, err
 			}
 			sleep(pause)
+			*paused += pause
 		}
 		return out, rd.Close()
 	}
@@ -455,10 +471,11 @@ func (w *World) Call(r *CallRec) {
 	r.WroteAt = simrt.Elapsed()
 	if s.ReadPause > 0 {
 		sleep(s.ReadPause)
+		r.Paused += s.ReadPause
 	}
 	resp := call.Response()
 	a2r, a2e := resp.Arg2Reader()
-	a2, err := readArgPaused(a2r, a2e, s.ReadPat, len(r.wantRes2), s.ChunkPause)
+	a2, err := readArgPaused(a2r, a2e, s.ReadPat, len(r.wantRes2), s.ChunkPause, &r.Paused)
 	r.Read2 = len(a2)
 	if err != nil {
 		finish(err)
@@ -470,7 +487,7 @@ func (w *World) Call(r *CallRec) {
 		rp3 = s.ReadPat3 - 1
 	}
 	a3r, a3e := resp.Arg3Reader()
-	a3, err := readArgPaused(a3r, a3e, rp3, len(r.wantRes3), s.ChunkPause)
+	a3, err := readArgPaused(a3r, a3e, rp3, len(r.wantRes3), s.ChunkPause, &r.Paused)
 	r.Read3 = len(a3)
 	if err != nil {
 		finish(err)
@@ -511,7 +528,7 @@ func (w *World) checkCallOutcome(r *CallRec) {
 	s := &r.Spec
 	// C05(a): control returns by the deadline (+ injected stall + one grid tick)
 	w.eval("C05.deadline")
-	slack := r.StallIn + w.Grid
+	slack := r.StallIn + w.Grid + r.Paused // (a caller busy in its own code is not waiting on the library)
 	if r.EndAt > r.Deadline+slack {
 		w.violate("C05", "deadline-overrun", "call %s (%s) returned at %v, deadline %v (+%v injected stall): overrun %v; err=%s",
 			s.Tag, s.Via, r.EndAt, r.Deadline, r.StallIn, r.EndAt-r.Deadline-r.StallIn, errStr(r.Err))
@@ -633,6 +650,7 @@ func (h *echoHandler) Handle(ctx context.Context, call *tchannel.InboundCall) {
 	defer func() { obs.ExitEv = w.event("handler-exit", "%s on %s resperr=%v", tag, h.n.Name, errStr(obs.RespErr)) }()
 	if err != nil {
 		obs.ReadErr = err
+		h.reportReadError(call, tag, err)
 		return
 	}
 	if cmd == nil {
@@ -690,6 +708,7 @@ func (h *echoHandler) Handle(ctx context.Context, call *tchannel.InboundCall) {
 	a3, err := readArg(call.Arg3Reader())(0, 0)
 	if err != nil {
 		obs.ReadErr = err
+		h.reportReadError(call, tag, err)
 		return
 	}
 	checkArgs(a3)
@@ -697,6 +716,7 @@ func (h *echoHandler) Handle(ctx context.Context, call *tchannel.InboundCall) {
 	if delay > 0 {
 		t := time.NewTimer(time.Duration(delay))
 		obs.Waiting = true
+		obs.WaitFrom = simrt.Elapsed()
 		st0 := simrt.Cur().Stalled()
 		select {
 		case <-t.C:
@@ -781,6 +801,12 @@ func (h *echoHandler) Handle(ctx context.Context, call *tchannel.InboundCall) {
 			}
 		}
 		obs.RespErr = resp.SendSystemError(tchannel.NewSystemError(tchannel.SystemErrCode(code), "%s", cmd["msg"]))
+		if wr != nil && fnv(tag+"/close")%2 == 0 {
+			// (a handler written with `defer w.Close()` closes its half-written argument after
+			// it has given up on the response)
+			w.probe("handler.closes-writer-after-system-error")
+			wr.Close()
+		}
 		h.watchCtx(ctx, obs)
 		return
 	}
@@ -805,5 +831,16 @@ func (h *echoHandler) watchCtx(ctx context.Context, obs *HandlerObs) {
 		obs.CtxErr = ctx.Err()
 		obs.CtxDone = true
 	default:
+	}
+}
+
+// reportReadError: what the library's thrift and JSON servers do when reading
+// the request fails - they cannot tell a malformed request from a failed call and
+// answer with a bad-request system error. The exchange has usually been shut down
+// already; the library must cope (no second shutdown, no frame after a terminal).
+func (h *echoHandler) reportReadError(call *tchannel.InboundCall, tag string, err error) {
+	if fnv(tag+"/readerr")%2 == 0 {
+		h.w.probe("handler.read-error-answered-with-bad-request")
+		call.Response().SendSystemError(tchannel.NewSystemError(tchannel.ErrCodeBadRequest, "cannot read request: %v", err))
 	}
 }
